@@ -135,10 +135,12 @@ pub fn generate(prop: &str, master: u64, index: u64, thorough: bool, ctx: &mut R
     };
     let preset: Option<Vec<Step>> = if plan.bulk.is_some() { Some(bulk_steps(&plan, &mut r)) } else { None };
     let len = preset.as_ref().map(|p| p.len()).unwrap_or(plan.len.min(MAX_LEN.load(std::sync::atomic::Ordering::Relaxed)));
+    let miri = MAX_LEN.load(std::sync::atomic::Ordering::Relaxed) != usize::MAX;
     for i in 0..len {
-        let step = match preset.as_ref() {
-            Some(p) => p[i].clone(),
-            None => Step::plain(world.gen(&mut r, ctx, len - i)),
+        let step = match (preset.as_ref(), plan.ord_bulk) {
+            (Some(p), _) => p[i].clone(),
+            (None, Some((n, pat))) if i == 0 && !miri => Step::plain(Op::OBulk { n, pat }),
+            _ => Step::plain(world.gen(&mut r, ctx, len - i)),
         };
         if !world.legal(&step.op) {
             // generators only emit legal operations; a preset step may have become illegal
